@@ -206,6 +206,110 @@ fn label_set(mask: u8) -> Vec<String> {
     (0..3).filter(|i| mask & (1 << i) != 0).map(|i| LABELS[i].to_string()).collect()
 }
 
+// ---------------------------------------------------------------------------------------
+// "counter drain" histories (shared by C16 and C32): k creations, then at least as many
+// deletions of ids that do not exist — each one a saturating decrement of the tenant's
+// in-memory usage counter on this tree — then deletions of ids that do exist. A delete path
+// that consults the in-memory counter instead of storage (e.g. "nothing to delete when the
+// counter is 0") acknowledges the real deletes without performing them; only such histories
+// reach that state, and the plain generators produce absent-id deletes too rarely for it.
+
+#[derive(Clone, Debug)]
+enum DStep {
+    CreateNode(u64, u8),
+    CreateEdge(u64, u64, u64),
+    DeleteNode(u64),
+    DeleteEdge(u64),
+}
+
+/// (k, extra absent deletes, mode, kind, real deletes, merge coins, label mask)
+type DrainRaw = (u8, u8, u8, u8, u8, Vec<bool>, u8);
+
+fn drain_strategy() -> impl Strategy<Value = DrainRaw> {
+    (1u8..=4, 0u8..=2, 0u8..3, 0u8..3, 1u8..=4, proptest::collection::vec(any::<bool>(), 40), 0u8..8)
+}
+
+/// kind 0: node counter (k nodes); 1: relationship counter (2 hub nodes, k relationships);
+/// 2: both. mode 0: creations, absent deletes, real deletes; 1: creations and absent deletes
+/// interleaved, then real deletes; 2: interleaved, then the absent deletes once more (so the
+/// counters are certainly drained), then real deletes.
+fn drain_steps(raw: &DrainRaw) -> Vec<DStep> {
+    let (k, extra, mode, kind, d, coins, mask) = raw;
+    let k = *k as u64;
+    let with_nodes = *kind != 1;
+    let with_edges = *kind != 0;
+    let mut creates = Vec::new();
+    if with_edges {
+        creates.push(DStep::CreateNode(8, *mask));
+        creates.push(DStep::CreateNode(9, 0));
+    }
+    if with_nodes {
+        for i in 1..=k {
+            creates.push(DStep::CreateNode(i, *mask));
+        }
+    }
+    if with_edges {
+        for i in 1..=k {
+            creates.push(DStep::CreateEdge(i, 8, if i % 2 == 0 { 8 } else { 9 }));
+        }
+    }
+    let node_count = creates.iter().filter(|c| matches!(c, DStep::CreateNode(..))).count() as u64;
+    let mut absent = Vec::new();
+    if with_nodes {
+        for j in 0..node_count + *extra as u64 {
+            absent.push(DStep::DeleteNode(20 + j % 2));
+        }
+    }
+    if with_edges {
+        for j in 0..k + *extra as u64 {
+            absent.push(DStep::DeleteEdge(20 + j % 2));
+        }
+    }
+    let mut seq: Vec<DStep> = Vec::new();
+    if *mode == 0 {
+        seq.extend(creates);
+        seq.extend(absent);
+    } else {
+        let (mut a, mut b) = (creates.into_iter().peekable(), absent.clone().into_iter().peekable());
+        let mut c = coins.iter().cycle();
+        while a.peek().is_some() || b.peek().is_some() {
+            let take_a = b.peek().is_none() || (a.peek().is_some() && *c.next().unwrap());
+            seq.push(if take_a { a.next().unwrap() } else { b.next().unwrap() });
+        }
+        if *mode == 2 {
+            seq.extend(absent);
+        }
+    }
+    let real = (*d as u64).min(k);
+    if with_edges {
+        for i in 1..=real {
+            seq.push(DStep::DeleteEdge(i));
+        }
+    }
+    if with_nodes {
+        for i in 1..=real {
+            seq.push(DStep::DeleteNode(i));
+        }
+    }
+    seq
+}
+
+fn drain_props(id: u64) -> JProps {
+    [("p".to_string(), to_json(&PropertyValue::Integer(id as i64)))].into_iter().collect()
+}
+
+fn c16_drain_build(raw: &DrainRaw) -> Vec<POp> {
+    drain_steps(raw)
+        .into_iter()
+        .map(|st| match st {
+            DStep::CreateNode(id, mask) => POp::CreateNode { id, labels: label_set(mask), props: drain_props(id) },
+            DStep::CreateEdge(id, src, dst) => POp::CreateEdge { id, src, dst, ty: "R".to_string(), props: JProps::new() },
+            DStep::DeleteNode(id) => POp::DeleteNode { id },
+            DStep::DeleteEdge(id) => POp::DeleteEdge { id },
+        })
+        .collect()
+}
+
 // =======================================================================================
 // fork helpers (C16)
 
@@ -846,6 +950,12 @@ fn c16_build(raw: &[RawOp]) -> Vec<POp> {
     ops
 }
 
+#[derive(Clone, Debug)]
+enum HistRaw {
+    Random(Vec<RawOp>),
+    Drain(DrainRaw),
+}
+
 /// one op of each kind, every crash point enumerated in both tiers
 fn c16_fixed_history() -> Vec<POp> {
     let p = |k: &str, v: PropertyValue| -> JProps { [(k.to_string(), to_json(&v))].into_iter().collect() };
@@ -932,7 +1042,7 @@ fn c16(args: &Args) {
     let mut ev = Evidence::new(
         args,
         "fault_enumeration",
-        "histories (<= 25 ops: persist_create_node/edge, persist_delete_*, persist_update_node_properties, persist_update_edge_properties, flush, checkpoint; ids 1..=6 with reuse, boundary property values) run in a fork()ed child that _exit()s at a chosen hook hit inside an operation (after quota check / WAL append / storage write / usage update) or right after an acknowledgement, or shuts down cleanly; a separate recovery process reopens the directory and calls recover(tenant); oracle = recovered graph (ids, labels, endpoints, types, typed properties) equals the reference model over the acknowledged ops, optionally plus the op in flight applied whole. Part A enumerates EVERY crash point of a fixed all-kinds history and of generated short histories; part B draws (history, crash point) pairs. Non-trivial = the crash fell strictly inside an operation, or the history contains a property update; distinct = distinct (history, crash point).",
+        "histories (<= 25 ops: persist_create_node/edge, persist_delete_*, persist_update_node_properties, persist_update_edge_properties, flush, checkpoint; ids 1..=6 with reuse, boundary property values) run in a fork()ed child that _exit()s at a chosen hook hit inside an operation (after quota check / WAL append / storage write / usage update) or right after an acknowledgement, or shuts down cleanly; a separate recovery process reopens the directory and calls recover(tenant); oracle = recovered graph (ids, labels, endpoints, types, typed properties) equals the reference model over the acknowledged ops, optionally plus the op in flight applied whole. Part A enumerates EVERY crash point of a fixed all-kinds history and of generated short histories; part B draws (history, crash point) pairs, one in six from a counter-drain class (k creations, at least k deletes of ids that do not exist, then deletes of ids that do). Non-trivial = the crash fell strictly inside an operation, or the history contains a property update; distinct = distinct (history, crash point).",
     );
     ev.assume("a process crash is modelled by _exit(2) semantics: everything write(2)n survives, user-space buffers are lost; power loss is not modelled");
     ev.assume("a property update may be read as replacing the property map or as merging into it; either reading, applied consistently, satisfies the oracle; updates carry no top-level null");
@@ -1048,9 +1158,13 @@ fn c16(args: &Args) {
     // Part B: (history <= 25, crash point) pairs
     if failure.is_none() {
         let n = args.tier.pick(300u32, 4_000u32);
-        let strat = (hist_strat(25), any::<u16>());
-        let to_case = |v: &(Vec<RawOp>, u16)| -> C16Case {
-            let ops = c16_build(&v.0);
+        // five random histories to one counter-drain history
+        let strat = (prop_oneof![5 => hist_strat(25).prop_map(HistRaw::Random), 1 => drain_strategy().prop_map(HistRaw::Drain)], any::<u16>());
+        let to_case = |v: &(HistRaw, u16)| -> C16Case {
+            let ops = match &v.0 {
+                HistRaw::Random(r) => c16_build(r),
+                HistRaw::Drain(d) => c16_drain_build(d),
+            };
             let pts = crash_points(&ops);
             // selector 0 = clean shutdown, otherwise a crash point (monotone map)
             let k = pick_idx(v.1, pts.len() + 1);
@@ -1062,7 +1176,7 @@ fn c16(args: &Args) {
             let case = to_case(v);
             let mut e = evc.borrow_mut();
             let mut j = jc.borrow_mut();
-            (*j)(&mut **e, &case, "B_random_pair")
+            (*j)(&mut **e, &case, if matches!(v.0, HistRaw::Drain(_)) { "B_counter_drain_pair" } else { "B_random_pair" })
         });
         drop(evc);
         drop(jc);
@@ -1232,6 +1346,9 @@ impl Pool {
 }
 thread_local! {
     static POOL: Pool = Pool::new(3);
+    /// writers of the stress phase (they carry scheduler indexes too, but no hook callback is
+    /// installed while they run)
+    static STRESS_POOL: Pool = Pool::new(8);
 }
 
 fn c18_quotas(mn: usize, me: usize) -> ResourceQuotas {
@@ -1597,6 +1714,155 @@ fn c18_check(arena: &mut Arena, case: &C18Case, kf: &C18Kf) -> (C18Verdict, Opti
     }
 }
 
+// ---------------------------------------------------------------------------------------
+// C18 stress phase: real concurrency. The hook-point scheduler can only interleave at hook
+// points; a check-then-count race *inside* one call (no hook between the two) shows only
+// when OS threads really run at the same time. This phase samples OS schedules: its verdict
+// is one-sided (a violation seen is definite; a clean run proves nothing about unseen
+// schedules) and what each thread observes may differ between runs.
+
+#[derive(Clone, Debug, Serialize, Deserialize, PartialEq, Eq, Hash)]
+struct StressCfg {
+    /// one string per concurrent writer: its creations, 'n' = node, 'e' = relationship
+    threads: Vec<String>,
+    /// creations performed sequentially before the writers start (brings the tenant close
+    /// to its quota)
+    prefill: String,
+    max_nodes: usize,
+    max_edges: usize,
+}
+
+/// deterministic round-robin over thread counts 2..=8, op patterns, quotas 1..=2, prefill
+fn stress_cfg(r: u64) -> StressCfg {
+    let n = 2 + (r % 7) as usize;
+    let pattern = (r / 7) % 4;
+    let q = 1 + ((r / 28) % 2) as usize;
+    let pre = ((r / 56) % q as u64) as usize;
+    let threads: Vec<String> = (0..n)
+        .map(|t| match pattern {
+            0 => "n".to_string(),
+            1 => "e".to_string(),
+            2 => if t % 2 == 0 { "n".to_string() } else { "e".to_string() },
+            _ => if t % 2 == 0 { "ne".to_string() } else { "en".to_string() },
+        })
+        .collect();
+    let prefill = match pattern {
+        0 => "n".repeat(pre),
+        1 => "e".repeat(pre),
+        _ => format!("{}{}", "n".repeat(pre), "e".repeat(pre)),
+    };
+    StressCfg { threads, prefill, max_nodes: q, max_edges: q }
+}
+
+fn stress_create(pm: &PersistenceManager, tenant: &str, kind: char, id: u64) -> Result<(), String> {
+    match catch(|| {
+        if kind == 'n' {
+            pm.persist_create_node(tenant, &Node::new(NodeId::new(id), Label::new("Q"))).map_err(|e| e.to_string())
+        } else {
+            pm.persist_create_edge(tenant, &Edge::new(EdgeId::new(id), NodeId::new(1), NodeId::new(1), EdgeType::new("R"))).map_err(|e| e.to_string())
+        }
+    }) {
+        Ok(r) => r,
+        Err(p) => Err(format!("panic: {p}")),
+    }
+}
+
+/// One round on a fresh tenant. Ok((refused, failures)): failures empty = the oracle held.
+fn c18_stress_round(arena: &mut Arena, cfg: &StressCfg) -> Result<(usize, Vec<String>), String> {
+    let n = cfg.threads.len();
+    if n > 8 || cfg.threads.iter().any(|t| t.len() > 4) || cfg.prefill.len() > 4 {
+        return Err("harness: stress configuration out of range (<= 8 threads, <= 4 ops each)".into());
+    }
+    let tenant = arena.new_tenant(cfg.max_nodes, cfg.max_edges)?;
+    let pm = arena.pm();
+    // the prefill acts as one more (sequential) writer, index n, for the bookkeeping
+    let mut case = C18Case { threads: cfg.threads.clone(), max_nodes: cfg.max_nodes, max_edges: cfg.max_edges, schedule: Vec::new(), recovers: 2, reopen: false };
+    let mut obs = C18Obs::default();
+    let mut prefill_results = Vec::new();
+    for (j, kind) in cfg.prefill.chars().enumerate() {
+        prefill_results.push(stress_create(&pm, &tenant, kind, c18_ids(n, j)));
+    }
+    // persistent writer threads (no spawn per round); each gets its job over a channel and then
+    // waits in a spin barrier so that all writers enter the call within nanoseconds of each other
+    let arrived = Arc::new(AtomicUsize::new(0));
+    let (rtx, rrx) = std::sync::mpsc::channel::<(usize, Vec<Result<(), String>>)>();
+    for (t, ops) in cfg.threads.iter().enumerate() {
+        let pm = Arc::clone(&pm);
+        let tenant = tenant.clone();
+        let arrived = Arc::clone(&arrived);
+        let rtx = rtx.clone();
+        let ops: Vec<char> = ops.chars().collect();
+        let job: Job = Box::new(move || {
+            arrived.fetch_add(1, Ordering::SeqCst);
+            let mut spins = 0u32;
+            while arrived.load(Ordering::SeqCst) < n {
+                spins += 1;
+                if spins % 4096 == 0 {
+                    std::thread::yield_now();
+                } else {
+                    std::hint::spin_loop();
+                }
+            }
+            let res: Vec<Result<(), String>> = ops.iter().enumerate().map(|(j, kind)| stress_create(&pm, &tenant, *kind, c18_ids(t, j))).collect();
+            drop(pm);
+            let _ = rtx.send((t, res));
+        });
+        STRESS_POOL.with(|p| p.tx[t].send(job).expect("stress worker alive"));
+    }
+    drop(rtx);
+    let mut results: Vec<Vec<Result<(), String>>> = vec![Vec::new(); n];
+    for _ in 0..n {
+        match rrx.recv_timeout(std::time::Duration::from_secs(60)) {
+            Ok((t, res)) => results[t] = res,
+            Err(_) => {
+                eprintln!("INCONCLUSIVE: a stress writer did not finish within 60 s");
+                std::process::exit(2);
+            }
+        }
+    }
+    obs.results = results;
+    if !cfg.prefill.is_empty() {
+        case.threads.push(cfg.prefill.clone());
+        obs.results.push(prefill_results);
+    }
+    for r in obs.results.iter().flatten() {
+        if let Err(m) = r {
+            if m.starts_with("panic: ") {
+                obs.panics.push(m.clone());
+            }
+        }
+    }
+    let u = pm.tenants().get_usage(&tenant).map_err(|e| format!("get_usage refused: {e}"))?;
+    let ns = pm.storage().scan_nodes(&tenant).map_err(|e| format!("scan_nodes refused: {e}"))?;
+    let es = pm.storage().scan_edges(&tenant).map_err(|e| format!("scan_edges refused: {e}"))?;
+    obs.usage0 = (u.node_count, u.edge_count);
+    obs.usage_before_recover = obs.usage0;
+    obs.scan_nodes = ns.iter().map(|x| x.id.as_u64()).collect();
+    obs.scan_edges = es.iter().map(|x| x.id.as_u64()).collect();
+    for _ in 0..case.recovers {
+        let (rn, re) = catch(|| pm.recover(&tenant)).map_err(|p| format!("recover panicked: {p}"))?.map_err(|e| format!("recover refused: {e}"))?;
+        let u = pm.tenants().get_usage(&tenant).map_err(|e| format!("get_usage refused: {e}"))?;
+        obs.recs.push(((rn.len(), re.len()), (u.node_count, u.edge_count), (obs.scan_nodes.len(), obs.scan_edges.len())));
+    }
+    let j = c18_judge(&case, &obs);
+    Ok((j.refused, j.failures.into_iter().map(|f| f.1).collect()))
+}
+
+/// run `rounds` rounds of one configuration (replay) — Some(message) on the first violation
+fn c18_stress_replay(cfg: &StressCfg, rounds: u64) -> Result<Option<String>, String> {
+    let mut arena = Arena::fresh()?;
+    for r in 0..rounds {
+        if r > 0 && r % 4000 == 0 {
+            arena = Arena::fresh()?;
+        }
+        let (_, failures) = c18_stress_round(&mut arena, cfg)?;
+        if !failures.is_empty() {
+            return Ok(Some(format!("stress round {r}: {}", failures.join(" ; "))));
+        }
+    }
+    Ok(None)
+}
+
 /// every distinct ordering of a multiset: `counts[t]` entries of thread t
 fn interleavings(counts: &mut Vec<usize>, cur: &mut Vec<u8>, f: &mut dyn FnMut(&[u8]) -> bool) -> bool {
     if counts.iter().all(|c| *c == 0) {
@@ -1624,10 +1890,11 @@ fn c18(args: &Args) {
     let mut ev = Evidence::new(
         args,
         "exploration",
-        "deterministic scheduler: 2-3 real writer threads each doing 1-2 persist_create_node|edge against a tenant with quota 1-2, parked on a condvar at every hook point (after quota check / WAL append / storage write; after_usage is the operation's last statement and does not park), released one step at a time by a schedule = Vec<thread index> (4 steps per creation). ALL interleavings of 2 threads x 1 op (70 each), 2x2 (12870 each) and 3x1 (34650 each) for the configurations listed under exhaustive_bound (quick: 5 + 2 + 1 configurations, the other 3x1 configurations sampled; thorough: 5 + 7 + 5), a seeded sample of 3x2; then recover(tenant) three times on the same manager (usage checked after each, so 1, 2 and 3 calls are all covered), plus reopen-then-recover cases on a fresh manager. Oracle: accepted <= quota per resource; refused creations leave nothing in scan_nodes/scan_edges; usage counters == entities in storage after the writers and after every recover; recover returns what storage holds. Non-trivial = two threads were between quota check and usage increment at the same time; distinct = distinct (configuration, observed event trace).",
+        "deterministic scheduler: 2-3 real writer threads each doing 1-2 persist_create_node|edge against a tenant with quota 1-2, parked on a condvar at every hook point (after quota check / WAL append / storage write; after_usage is the operation's last statement and does not park), released one step at a time by a schedule = Vec<thread index> (4 steps per creation). ALL interleavings of 2 threads x 1 op (70 each), 2x2 (12870 each) and 3x1 (34650 each) for the configurations listed under exhaustive_bound (quick: 5 + 2 + 1 configurations, the other 3x1 configurations sampled; thorough: 5 + 7 + 5), a seeded sample of 3x2; then recover(tenant) three times on the same manager (usage checked after each, so 1, 2 and 3 calls are all covered), plus reopen-then-recover cases on a fresh manager. Oracle: accepted <= quota per resource; refused creations leave nothing in scan_nodes/scan_edges; usage counters == entities in storage after the writers and after every recover; recover returns what storage holds. Then a stress phase: rounds of 2..8 real threads (1-2 creations each, nodes/relationships/mixed, quota 1-2, tenant optionally pre-filled to one below its quota) released together without the scheduler, same oracle. Non-trivial = two threads were between quota check and usage increment at the same time (scheduler part) or more creations attempted than the quota leaves room for (stress part); distinct = distinct (configuration, observed event trace) resp. distinct stress configurations.",
     );
     ev.assume("each schedule runs on a fresh tenant of a shared RocksDB directory; tenant names increase so a tenant's prefix scan cannot reach older tenants' keys");
     ev.assume("a writer that does not reach its next hook within 3 s is treated as blocked on a lock and another thread is scheduled (never happens on the pinned tree)");
+    ev.assume("the final stress phase (classes stress_*: 2..8 real threads released together from a spin barrier, no scheduler, same oracle) samples OS schedules: it is nondeterministic by nature, a violation it reports is definite, a clean run says nothing about schedules not sampled, and refusal counts of that phase may vary between runs; it reaches races that have no hook point between their two halves");
     let kfs = Known::load(args);
 
     let run_single = |case: &C18Case, kf: &C18Kf| -> C18Verdict {
@@ -1639,7 +1906,25 @@ fn c18(args: &Args) {
     let strict = C18Kf { nonatomic: false, additive: false };
 
     if let Some(p) = &args.replay {
-        let case: C18Case = serde_json::from_value(load_replay(p)).expect("replay case");
+        let raw = load_replay(p);
+        if raw.get("stress").is_some() {
+            // a stress case names a configuration; the OS schedule cannot be replayed, so the
+            // configuration is re-run for the recorded number of rounds
+            let cfg: StressCfg = serde_json::from_value(raw["stress"].clone()).expect("stress replay case");
+            let rounds = raw["rounds"].as_u64().unwrap_or(5000);
+            ev.cases(rounds);
+            match c18_stress_replay(&cfg, rounds) {
+                Ok(None) => println!("replay: property held in {rounds} rounds (a stress replay samples OS schedules)"),
+                Ok(Some(m)) | Err(m) => {
+                    report_violation(&mut ev, &raw, &m);
+                }
+            }
+            ev.nontrivial(&cfg);
+            ev.nontrivial(&"replay");
+            ev.sample(raw.clone());
+            finish(&ev);
+        }
+        let case: C18Case = serde_json::from_value(raw).expect("replay case");
         ev.case();
         match run_single(&case, &strict) {
             C18Verdict::Held => println!("replay: property held"),
@@ -1827,8 +2112,60 @@ fn c18(args: &Args) {
         }
     }
     drop(judge);
+
+    // stress phase: N = 2..8 real threads released together, no scheduler, fresh tenant per round
+    let mut stress_failure: Option<(Value, String)> = None;
+    if failure.is_none() {
+        samyama::verif_hooks::install(None);
+        let rounds = args.tier.pick(10_000u64, 150_000u64);
+        let (mut refused_total, mut contended) = (0u64, 0u64);
+        let mut since = 0u32;
+        for r in 0..rounds {
+            since += 1;
+            if since > 4000 {
+                match Arena::fresh() {
+                    Ok(a) => arena = a,
+                    Err(m) => {
+                        eprintln!("INCONCLUSIVE: cannot open a scratch store: {m}");
+                        std::process::exit(2)
+                    }
+                }
+                since = 0;
+            }
+            let cfg = stress_cfg(r);
+            ev.case();
+            ev.class("stress_round");
+            ev.class(&format!("stress_threads_{}", cfg.threads.len()));
+            // more attempts than room for some resource: the writers contend for the quota
+            let attempts = |k: char| cfg.threads.iter().map(|t| t.chars().filter(|c| *c == k).count()).sum::<usize>();
+            let room = |k: char, q: usize| q.saturating_sub(cfg.prefill.chars().filter(|c| *c == k).count());
+            if attempts('n') > room('n', cfg.max_nodes) || attempts('e') > room('e', cfg.max_edges) {
+                contended += 1;
+                ev.nontrivial(&("stress", &cfg));
+            }
+            match c18_stress_round(&mut arena, &cfg) {
+                Ok((refused, failures)) => {
+                    refused_total += refused as u64;
+                    if !failures.is_empty() {
+                        let msg = format!("stress round {r} ({} real threads released together, quota nodes/relationships {}/{}, prefill {:?}): {}", cfg.threads.len(), cfg.max_nodes, cfg.max_edges, cfg.prefill, failures.join(" ; "));
+                        stress_failure = Some((json!({"stress": cfg, "rounds": rounds.max(5000)}), msg));
+                        break;
+                    }
+                }
+                Err(m) => {
+                    stress_failure = Some((json!({"stress": cfg, "rounds": rounds.max(5000)}), m));
+                    break;
+                }
+            }
+        }
+        ev.set("stress", json!({"rounds": rounds, "threads_per_round": "2..=8 (round-robin)", "contended_rounds": contended, "refused_creations": refused_total, "note": "samples OS schedules; what each thread observes may vary between runs"}));
+    }
     // finish() exits the process without running destructors: remove the scratch store now
     drop(arena);
+    if let Some((case, msg)) = stress_failure {
+        report_violation(&mut ev, &case, &msg);
+        finish(&ev);
+    }
 
     if let Some((case, msg)) = failure {
         // shrink: fewer recover calls, no reopen, shorter schedule, fewer/shorter threads
@@ -2199,11 +2536,23 @@ fn c32_build(raw: &[RawReq]) -> Vec<Req> {
     reqs
 }
 
+fn c32_drain_build(raw: &DrainRaw) -> Vec<Req> {
+    drain_steps(raw)
+        .into_iter()
+        .map(|st| match st {
+            DStep::CreateNode(id, mask) => Req::CreateNode { t: 0, id, labels: label_set(mask), props: drain_props(id) },
+            DStep::CreateEdge(id, src, dst) => Req::CreateEdge { t: 0, id, src, dst, ty: "R".to_string(), props: JProps::new() },
+            DStep::DeleteNode(id) => Req::DeleteNode { t: 0, id },
+            DStep::DeleteEdge(id) => Req::DeleteEdge { t: 0, id },
+        })
+        .collect()
+}
+
 fn c32(args: &Args) {
     let mut ev = Evidence::new(
         args,
         "exploration",
-        "sequences (<= 20) of replicated Requests (create/delete node and relationship, node/relationship property updates with versions, read-only query; ids 1..=5 with reuse, relationships to missing nodes, deletes and updates of absent ids, requests to a tenant no replica knows, optional small tenant quotas so creations fail; boundary property values) applied to 2-3 GraphStateMachines on fresh directories (even replicas through RaftNode::write, odd ones through GraphStateMachine::apply), each closed, reopened and recovered. Oracle: recovered graphs (ids, labels, endpoints, types, typed properties; timestamps ignored) identical on all replicas — always; and equal to the reference model that applies every request acknowledged with a non-error response, in order — on histories whose meaning is settled (no node deleted while it has relationships, no id created while live). Non-trivial = the sequence contains a property update or a request answered with an error; distinct = distinct cases.",
+        "sequences (<= 20) of replicated Requests (create/delete node and relationship, node/relationship property updates with versions, read-only query; ids 1..=5 with reuse, relationships to missing nodes, deletes and updates of absent ids, requests to a tenant no replica knows, optional small tenant quotas so creations fail; boundary property values; plus a counter-drain class: k creations, at least k deletes of ids that do not exist, then deletes of ids that do, ordered and interleaved) applied to 2-3 GraphStateMachines on fresh directories (even replicas through RaftNode::write, odd ones through GraphStateMachine::apply), each closed, reopened and recovered. Oracle: recovered graphs (ids, labels, endpoints, types, typed properties; timestamps ignored) identical on all replicas — always; and equal to the reference model that applies every request acknowledged with a non-error response, in order — on histories whose meaning is settled (no node deleted while it has relationships, no id created while live). Non-trivial = the sequence contains a property update or a request answered with an error; distinct = distinct cases.",
     );
     ev.assume("a property update may be read as replacing the property map or as merging into it; either reading, applied consistently, satisfies the oracle; updates carry no top-level null");
     ev.assume("a replica holds data for one tenant only (tenant scans are unbounded above, C17); the unknown tenant never holds data unless a creation for it is wrongly accepted");
@@ -2313,6 +2662,23 @@ fn c32(args: &Args) {
         drop(evc);
         if let Some((v, msg)) = res {
             failure = Some((to_case(&v), msg));
+        }
+    }
+
+    // counter-drain class: k creations, >= k deletes of absent ids, then deletes of existing ids
+    if failure.is_none() {
+        let n = args.tier.pick(50u32, 800u32);
+        let dstrat = (drain_strategy(), 2u8..4);
+        let to_dcase = |v: &(DrainRaw, u8)| C32Case { quota: None, replicas: v.1, reqs: c32_drain_build(&v.0) };
+        let evc = std::cell::RefCell::new(&mut ev);
+        let res = search(args.seed ^ 0xd7a1, n, &dstrat, |v| {
+            let case = to_dcase(v);
+            let mut e = evc.borrow_mut();
+            judge(&mut **e, &case, "counter_drain")
+        });
+        drop(evc);
+        if let Some((v, msg)) = res {
+            failure = Some((to_dcase(&v), msg));
         }
     }
 
